@@ -58,6 +58,23 @@ Theorem C19_text_unaffected :
 Proof. intros U cfg m s s'. exact (external_print_keeps_edit U cfg m s tt s'). Qed.
 Print Assumptions C19_text_unaffected.
 
+(* a message is not a command: besides the screen bookkeeping (output, layout, shown hint) NOTHING of the editing state changes
+   when a message is shown -- the kill ring with its memory of the last action (a kill, a message, a kill still accumulate; a
+   yank, a message, a yank-pop still replace), the numeric argument, vi's last command and character search, the position in the
+   history, the saved line, the input still to be read *)
+Theorem C19_message_is_not_a_command :
+  forall (U : UData) (cfg : config) (m : str) (s s' : est),
+  external_print U cfg m s = EOk tt s' -> same_editing_state s s' /\ e_inp s' = e_inp s.
+Proof. exact external_print_keeps_state. Qed.
+Print Assumptions C19_message_is_not_a_command.
+
+(* ... and so for every batch of messages the main loop's wait finds pending *)
+Theorem C19_messages_are_not_commands :
+  forall (U : UData) (cfg : config) (fuel : nat) (s s' : est),
+  drain_prints U cfg fuel s = EOk tt s' -> same_editing_state s s'.
+Proof. exact drain_prints_keeps_state. Qed.
+Print Assumptions C19_messages_are_not_commands.
+
 Theorem C19_message_written :
   forall (U : UData) (cfg : config) (m : str) (s s' : est),
   external_print U cfg m s = EOk tt s' ->
